@@ -355,7 +355,13 @@ class PDFStream(PDFObject):
             raise PDFException("Parameters len filter mismatch")
 
         resolved_filters = [resolve1(f) for f in filters]
-        resolved_params = [resolve1(param) for param in params]
+        resolved_params = []
+        for param in params:
+            param = resolve1(param)
+            if param is not None:
+                # the parameters of a filter are a dictionary or null
+                param = dict_value(param)
+            resolved_params.append(param)
         return list(zip(resolved_filters, resolved_params))
 
     def decode(self) -> None:
